@@ -86,10 +86,21 @@ fn content(c: usize, own: usize) -> Vec<Rec> {
         ],
         // empty packet
         5 => vec![],
+        // a foreign-zone record FOLLOWING an own-zone record of the same relative name and type (a filter that only
+        // guards the record that opens a record set would merge it in: seeded change C36-seed76), and the reverse order
+        6 => vec![
+            r(format!("_iroh.{me}"), Data::Txt(format!("{tag}-in"))),
+            r(format!("_iroh.{other}"), Data::Txt(format!("{tag}-foreign-after-own"))),
+            r(me.clone(), Data::A([10, 0, own as u8, 6])),
+            r(other.clone(), Data::A([66, 66, own as u8, 6])),
+            r("_iroh.example".into(), Data::Txt(format!("{tag}-nozone-after-own"))),
+            r(format!("late.{other}"), Data::Txt(format!("{tag}-foreign-before-own"))),
+            r(format!("late.{me}"), Data::Txt(format!("{tag}-late-in"))),
+        ],
         _ => unreachable!(),
     }
 }
-const NCONTENT: usize = 6;
+const NCONTENT: usize = 7;
 
 /// The (relative name, type) grid queried for `key`: every (name, type) under which any record of any
 /// content template could be served for that key -- mapped honestly (own zone stripped) or by a broken
